@@ -1,4 +1,74 @@
-(* Props/C02.v -- property theorems only *)
-From Coq Require Import ZArith.
-From Falcon Require Import Isa.Mips Isa.ILRun Isa.MipsLift.
+(* Props/C02.v -- property theorems only (MIPS part; the PowerPC part of C02 is covered by the sampled
+   comparison only, see notes/C02.md) *)
+From Coq Require Import ZArith List.
+From Falcon Require Import Base.Res IL.Func Exec.Sem Isa.ILRun Isa.Mips Isa.MipsLift Isa.MipsProofs Isa.C02Check Isa.MipsRefuted.
+Import ListNotations.
 Local Open Scope Z_scope.
+
+(* 1. [U] per-form correctness of the lifter mirror, non-control forms with a theorem (proved_plain):
+      add addu sub subu and or xor nor slt sltu movn movz mul, sll srl sra, sllv srlv srav,
+      addi addiu slti sltiu andi ori xori, lui, mfhi mflo mthi mtlo, teq break syscall sync pref
+      (and capstone's aliases move, negu, nop).
+      For ALL register / immediate fields, ALL lifting addresses, ALL well-formed machine states and ALL
+      IL states embedding them: the builder raises no sort error, and running its graph yields the state
+      (or the exception) the ISA specification prescribes; `branching_condition` is left alone. *)
+Theorem mips_plain_forms_correct : forall bg i, proved_plain i = true -> fields_ok i -> plain_correct bg i.
+Proof. exact proved_plain_correct. Qed.
+Print Assumptions mips_plain_forms_correct.
+
+(* 2. [U] the translated block of one non-control instruction: graphs, then the successor = next pc *)
+Theorem mips_single_block_correct : forall bg a w i temps s st,
+  decode w = Some i -> is_control i = false -> plain_correct bg i ->
+  wf_m s -> big s = bg -> pc s = a -> 0 <= a -> a + 8 < 2 ^ 32 -> emb s st -> temps_ok (nth 0 temps []) ->
+  match mirror_block bg a [w] temps with
+  | None => True
+  | Some l => block_post (mrun [w] s) st (run_block (map snd (fst l)) (snd l) st)
+  end.
+Proof. exact single_block_correct. Qed.
+Print Assumptions mips_single_block_correct.
+
+(* 3. [U] every branch / jump form (j jal jr jalr beq bne blez bgtz bltz bgez bltzal bgezal, aliases b beqz
+      bnez bal), for EVERY delay-slot instruction form that has a per-form theorem: condition, target
+      and link value come from the state before the branch, the slot executes, then control transfers.
+      jr / jalr: for slots that leave the target register unchanged (`target_stable`; the complement is
+      the known finding kf:mips-jr-jalr-target-read-after-slot, witness below). *)
+Theorem mips_control_correct : forall bg b, is_control b = true -> branch_correct bg b.
+Proof. exact control_correct. Qed.
+Print Assumptions mips_control_correct.
+
+Theorem mips_branch_block_correct : forall bg a w1 w2 b sl temps s st,
+  decode w1 = Some b -> decode w2 = Some sl -> is_control b = true -> is_control sl = false ->
+  branch_correct bg b -> plain_correct bg sl -> branch_ok a b -> target_stable b sl s ->
+  wf_m s -> big s = bg -> pc s = a -> 0 <= a -> a + 8 < 2 ^ 32 -> emb s st -> temps_ok (nth 1 temps []) ->
+  match mirror_block bg a [w1; w2] temps with
+  | None => True
+  | Some l => block_post (mrun [w1; w2] s) st (run_block (map snd (fst l)) (snd l) st)
+  end.
+Proof. exact branch_block_correct. Qed.
+Print Assumptions mips_branch_block_correct.
+
+(* 4. the executable side conditions the tie evaluates imply the theorems' hypotheses *)
+Theorem mips_fields_okb_ok : forall i, fields_okb i = true -> fields_ok i.
+Proof. exact fields_okb_ok. Qed.
+Print Assumptions mips_fields_okb_ok.
+Theorem mips_branch_okb_ok : forall a b, branch_okb a b = true -> branch_ok a b.
+Proof. exact branch_okb_ok. Qed.
+Print Assumptions mips_branch_okb_ok.
+
+(* 5. known findings: witnesses *)
+Theorem mips_jr_target_read_after_slot_refuted :
+  witness_ok true 4198400 [52428808; 658046980] (mksample [(25, 4096)] 0 0 0) = false.
+Proof. exact jr_target_read_after_slot_refuted. Qed.
+Print Assumptions mips_jr_target_read_after_slot_refuted.
+Theorem mips_unaligned_lw_refuted : witness_ok true 4198400 [2349334529] (mksample [] 0 0 7) = false.
+Proof. exact unaligned_lw_refuted. Qed.
+Print Assumptions mips_unaligned_lw_refuted.
+Theorem mips_div_by_zero_refuted : witness_ok true 4198400 [16777242] (mksample [(8, 5)] 0 0 0) = false.
+Proof. exact div_by_zero_refuted. Qed.
+Print Assumptions mips_div_by_zero_refuted.
+
+(* the hypotheses are satisfiable: the sampled states of the check are well formed and embedded *)
+Example mips_hypotheses_satisfiable :
+  let s := mk_mstate true 4198400 (mksample [(8, 5)] 1 2 3) in
+  wf_m s /\ emb s (embed s []).
+Proof. exact hypotheses_satisfiable. Qed.
